@@ -26,6 +26,9 @@ def spec_from_case(case):
     if "images" in sp:
         images = [synth.image_spec(pol, scan, L, P, tc) for pol, scan, L, P in sp["images"]]
     spec = synth.product_spec(level, images=images)
+    if sp.get("line_mode"):
+        for im in spec["images"]:
+            im["line_mode"] = sp["line_mode"]
     for k, v in sp.get("leader", {}).items():
         spec["leader"][k] = v
     for k, v in sp.get("vol", {}).items():
